@@ -51,6 +51,22 @@ Theorem C05_unknown_key_not_accepted : forall d, Unknown KSpec d -> accepts d = 
 Proof. exact unknown_key_not_accepted. Qed.
 Print Assumptions C05_unknown_key_not_accepted.
 
+(* two members with the same name in ANY object of the document tree (the Spec, a device, any edits, any list entry,
+   an annotations map): the strict YAML layer refuses the document; [accepts_strict] = that check, then [accepts] *)
+Theorem C05_has_dup_iff : forall d, has_dup d = true <-> HasDup d.
+Proof. exact has_dup_iff. Qed.
+Print Assumptions C05_has_dup_iff.
+Theorem C05_duplicate_key_rejects : forall d, HasDup d -> accepts_strict d = Err.
+Proof. exact duplicate_key_rejects. Qed.
+Print Assumptions C05_duplicate_key_rejects.
+Theorem C05_accepts_strict_iff_WF : forall d,
+  accepts_strict d = Ok tt <-> ~ HasDup d /\ exists s, spec_of_doc d = Ok s /\ WF s.
+Proof. exact accepts_strict_iff_WF. Qed.
+Print Assumptions C05_accepts_strict_iff_WF.
+Theorem C05_accepts_strict_total : forall d, accepts_strict d <> Panic.
+Proof. exact accepts_strict_total. Qed.
+Print Assumptions C05_accepts_strict_total.
+
 (* a versioned feature used at any place forces the declared version up (with C06's meaning of [required]) *)
 Theorem C05_mount_type_needs_040 : forall s v,
   uses_mount_type s -> declared (s_version s) = Some v -> ver_gtb "v0.4.0" v = true -> ~ WF s.
@@ -72,7 +88,7 @@ Proof. exact wf_b_iff. Qed.
 Print Assumptions C05_wf_b_iff.
 Theorem C05_oracle_doc_meaning : forall d obs parsed,
   oracle05 (CDoc d obs parsed) = true ->
-  obs <> [] /\ forall o, In o obs -> o <> 2 /\ (o = 0 <-> exists s, spec_of_doc d = Ok s /\ WF s).
+  obs <> [] /\ forall o, In o obs -> o <> 2 /\ (o = 0 <-> ~ HasDup d /\ exists s, spec_of_doc d = Ok s /\ WF s).
 Proof. exact oracle05_doc_meaning. Qed.
 Print Assumptions C05_oracle_doc_meaning.
 Theorem C05_oracle_typed_meaning : forall s obs,
